@@ -372,6 +372,11 @@ class Table:
         return ev(rf.num) / ev(rf.den)
 
     def equal(self, a, b):
+        if not (isinstance(a, RF) and isinstance(b, RF)):
+            # slices / tuples / None: structural comparison (never equal to an RF)
+            if a is None or b is None:
+                return a is b
+            return self.arg_eq(a, b)
         a = self.reduce(a)
         b = self.reduce(b)
         if a.den == b.den:
